@@ -395,7 +395,7 @@ def main(tier, seed, replay=None):
                 L, d, nxt), res)
             hs = res.tagged("H")
             if q and nxt == "HHNext":
-                hs = par.sample(hs, 5, seed)
+                hs = par.sample(hs, 8, seed)
             if len(hs) > 12000:
                 k = len(hs) // 12000 + 1
                 hs = par.sample(hs, k, seed)
@@ -410,7 +410,7 @@ def main(tier, seed, replay=None):
                 if viol:
                     rep.violation(viol[0], viol[1], case, size=viol[2])
         # free interleavings (simulated), judged by trace validation
-        num = 600 if q else 15000
+        num = 400 if q else 15000
         sim = tlc.run("MC_Hierarchy", CFG.format(L=3, d=12, alt="FALSE",
                                                  next="HHNext"),
                       workers=1, timeout=3000, simulate="num=%d" % num,
